@@ -2,6 +2,13 @@ mod util;
 mod c07;
 mod robots;
 mod c03;
+mod ik;
+mod c01;
+mod kin;
+mod c05;
+mod c04;
+mod c06;
+mod c08;
 
 fn main() {
     let args: Vec<String> = std::env::args().collect();
@@ -18,6 +25,12 @@ fn main() {
     match args[1].as_str() {
         "C07" => c07::main(tier, seed, n),
         "C03" => c03::main(tier, seed, n),
+        "C01" => c01::main(tier, seed, n),
+        "KIN" => kin::main(tier, seed, n),
+        "C05" => c05::main(tier, seed, n),
+        "C04" => c04::main(tier, seed, n),
+        "C06" => c06::main(tier, seed, n),
+        "C08" => c08::main(tier, seed, n),
         p => { eprintln!("unknown property {}", p); std::process::exit(2); }
     }
 }
